@@ -85,6 +85,28 @@ Theorem C38_pddl_get_pddl_name_valid :
 Proof. exact pddl_final_name. Qed.
 Print Assumptions C38_pddl_get_pddl_name_valid.
 
+(* which tables a writer holds: PDDLWriter.__init__ adds each table under a condition on the problem's features
+   (rules regenerated from the source).  For EVERY combination of features the resulting set stays within the declared
+   tables (so the theorems above apply to it) and contains every word that the hand-pinned specification
+   [pddl_reserved_spec] reserves for a problem with those features (e.g. process/event as soon as the problem has
+   processes OR events) *)
+Theorem C38_pddl_writer_keywords_within_tables :
+  forall has, incl (pddl_writer_kws has) pddl_all_keywords.
+Proof. exact pddl_writer_kws_incl. Qed.
+Print Assumptions C38_pddl_writer_keywords_within_tables.
+
+Theorem C38_pddl_reserved_words_covered :
+  forall has, incl (pddl_reserved_spec has) (pddl_writer_kws has).
+Proof. exact pddl_reserved_covered. Qed.
+Print Assumptions C38_pddl_reserved_words_covered.
+
+Theorem C38_pddl_names_never_reserved_words :
+  forall has hier pnames reqs ns st it n,
+    pddl_run (pddl_cfg (pddl_writer_kws has)) hier pnames reqs = Some (ns, st) ->
+    get_pddl_name st it = Some n -> ~ In n (pddl_reserved_spec has).
+Proof. exact pddl_final_not_reserved. Qed.
+Print Assumptions C38_pddl_names_never_reserved_words.
+
 (* ------------------------------------------------------------------ ANML *)
 Definition anml_writer_run := anml_run anml_vcfg anml_cfg anml_builtin_names.
 
